@@ -88,14 +88,23 @@ func parentGoid() int64 {
 // from the bubble root. Siblings are ordered by goroutine id, which on one P is the
 // order in which their (deterministically executing) parent created them; absolute ids
 // never decide between goroutines of different parents.
-func (s *Sim) keyLocked(g int64, parent int64) []int64 {
+func (s *Sim) keyLocked(g int64) []int64 {
 	if k, ok := s.keys[g]; ok {
 		return k
 	}
+	// Resolved lazily, when the scheduler sorts the ready set (everything is parked or
+	// durably blocked then): a child can reach its first yield before its parent reached
+	// the Spawned() that follows the go statement (the Go runtime may preempt the parent in
+	// between under load), and the parent's key is only known once the parent has yielded.
+	// Resolving at the child's first yield gave the child a different key in about one
+	// process out of a hundred (found by ./check selftest-determinism).
+	parent := s.parents[g]
 	var pk []int64
 	if parent >= s.firstGoid {
-		if k, ok := s.keys[parent]; ok {
-			pk = k
+		_, keyed := s.keys[parent]
+		_, seen := s.parents[parent]
+		if keyed || seen {
+			pk = s.keyLocked(parent)
 		} else {
 			pk = []int64{0, parent}
 		}
@@ -135,6 +144,7 @@ type Sim struct {
 	parked    []*waiter
 	prio      map[int64]int
 	keys      map[int64][]int64
+	parents   map[int64]int64
 	changeAt  map[int]bool
 	wake      chan struct{}
 	mainDone  bool
@@ -165,6 +175,8 @@ type Sim struct {
 }
 
 var active atomic.Pointer[Sim]
+
+var debugKeys = os.Getenv("VERIF_DEBUG_KEYS") != ""
 
 // Active returns the running simulation or nil.
 func Active() *Sim { return active.Load() }
@@ -215,10 +227,12 @@ func (s *Sim) yield(force bool) {
 	}
 	key, known := s.keys[g]
 	if !known {
-		s.mu.Unlock()
-		pg := parentGoid()
-		s.mu.Lock()
-		key = s.keyLocked(g, pg)
+		if _, seen := s.parents[g]; !seen {
+			s.mu.Unlock()
+			pg := parentGoid()
+			s.mu.Lock()
+			s.parents[g] = pg
+		}
 	}
 	s.Yields++
 	if g == s.current && !force {
@@ -430,7 +444,7 @@ func Run(t *testing.T, cfg Config, choice *Choice, body func(s *Sim)) (res *Resu
 	if cfg.Horizon == 0 {
 		cfg.Horizon = 2 * time.Hour
 	}
-	s := &Sim{T: t, Cfg: cfg, Choice: choice, Probes: map[string]int{}, Faults: map[string]int{}, prio: map[int64]int{}, keys: map[int64][]int64{}, changeAt: map[int]bool{}}
+	s := &Sim{T: t, Cfg: cfg, Choice: choice, Probes: map[string]int{}, Faults: map[string]int{}, prio: map[int64]int{}, keys: map[int64][]int64{}, parents: map[int64]int64{}, changeAt: map[int]bool{}}
 	s.hash = 14695981039346656037
 	s.schedHash = 14695981039346656037
 	if cfg.Strategy == StratPrio {
@@ -547,6 +561,11 @@ func (s *Sim) loop() {
 				time.Sleep(time.Nanosecond)
 				continue
 			}
+			for _, pw := range s.parked {
+				if pw.key == nil {
+					pw.key = s.keyLocked(pw.g)
+				}
+			}
 			sort.Slice(s.parked, func(i, j int) bool { return keyLess(s.parked[i].key, s.parked[j].key) })
 			idx := s.pickLocked(n)
 			w := s.parked[idx]
@@ -560,6 +579,13 @@ func (s *Sim) loop() {
 			s.schedHash = (s.schedHash ^ uint64(idx*131+n)) * 1099511628211
 			if s.Cfg.Debug {
 				s.debugLog = append(s.debugLog, fmt.Sprintf("[step %d t=%v] pick %d/%d g=%d", s.Steps, time.Since(s.start), idx, n, s.denseID(w.g)))
+				if debugKeys {
+					ks := ""
+					for _, pw := range s.parked {
+						ks += fmt.Sprintf(" %v", pw.key)
+					}
+					s.debugLog = append(s.debugLog, fmt.Sprintf("    picked key %v; others:%s", w.key, ks))
+				}
 			}
 			s.mu.Unlock()
 			w.ch <- struct{}{}
